@@ -174,7 +174,7 @@ macro_rules! api_impl {
                     let isb: fn(&$src, usize) -> bool = $isb;
                     let ok = sp.start <= sp.end && sp.end <= src.len() && isb(src, sp.start) && isb(src, sp.end);
                     if ok {
-                        let good = $x.slice() == &src[sp.clone()] && $x.remainder() == &src[sp.end..];
+                        let good = $x.slice() == &src[sp.clone()] && $x.remainder() == &src[sp.end..] && std::ptr::eq($x.source(), src);
                         format!("{}:{}-{}:x{}{}", $t, sp.start, sp.end, $x.extras, if good { "" } else { ":BADSLICE" })
                     } else {
                         format!("{}:{}-{}:BADSPAN", $t, sp.start, sp.end)
